@@ -43,6 +43,11 @@ IMPORTS = ['SV.SM.PathNorm', 'SV.SM.PathNormEnum', 'SV.SM.PathOps', 'SV.Gen.Cont
 PRE = 'Import ListNotations.\n'
 CWD = '/w/cwd'
 ALPHA = ['..', '.', '', 'a', 'root', 'root_evil', 'root/x']
+# second alphabet: segments that CONTAIN backslashes (ordinary characters on POSIX), and non-ASCII look-alikes of '.', '..'
+# and '/' (fullwidth full stop U+FF0E, two dot leader U+2025, division slash U+2215) which must stay ordinary characters;
+# all are invariant under str.casefold (unify_path's model leaves casefold out)
+ALPHA2 = ['..', '.', 'a', '\\', '..\\', 'a\\..', '\u00e9', '\uff0e\uff0e', 'x\u2215y', '\u2025']
+ALPHABETS = {'alpha': ALPHA, 'alpha2': ALPHA2}
 PREFIXES = ['', '/', '//', '///', '/t/', '/t/root/../', '\\']
 ROOTS = ['/t/root', '/t/root/', '/', 't/root', '//t/root', '/t/root/x/..']
 KINDS = [0, 1, 2, 3]
@@ -75,8 +80,8 @@ def join_kind(kind: int, segs) -> str:
     return ''.join(out)
 
 
-def paths_of(prefix: str, kind: int, n: int) -> list[str]:
-    return [prefix + join_kind(kind, t) for t in itertools.product(ALPHA, repeat=n)]
+def paths_of(prefix: str, kind: int, n: int, alpha: str = 'alpha') -> list[str]:
+    return [prefix + join_kind(kind, t) for t in itertools.product(ALPHABETS[alpha], repeat=n)]
 
 
 def impl_resolve(fs, p: str) -> str:
@@ -95,8 +100,34 @@ def impl_unify(p: str) -> str:
         return '!'
 
 
+def path_shape(p: str) -> str:
+    """Coarse class of an input path, for the printed distribution."""
+    comps = p.split('/')
+    tags = ['abs' if p.startswith('/') else 'rel']
+    if '..' in comps:
+        tags.append('dotdot')
+    if '\\' in p:
+        tags.append('backslash')
+    if any('..' in c and c != '..' for c in comps):
+        tags.append('dotdot-inside-name')
+    if '//' in p:
+        tags.append('empty-seg')
+    if any(ord(c) > 127 for c in p):
+        tags.append('non-ascii')
+    return '+'.join(tags)
+
+
 def adler(results) -> int:
-    return zlib.adler32(('\n'.join(results) + '\n').encode('latin-1'))
+    text = '\n'.join(results) + '\n'
+    try:
+        return zlib.adler32(text.encode('latin-1'))
+    except UnicodeEncodeError:
+        # same recurrence over code points as SM/PathNormEnum.v (ad_char), which is Adler-32 when all are < 256
+        a, b = 1, 0
+        for ch in text:
+            a = (a + ord(ch)) % 65521
+            b = (b + a) % 65521
+        return (b << 16) | a
 
 
 def functions():
@@ -112,12 +143,13 @@ def functions():
     return fns
 
 
-def coq_run(ck: Ck, tag: str, exprs: list[str], timeout: int = 900) -> list[str] | None:
+def coq_run(ck: Ck, tag: str, exprs: list[str], timeout: int = 900, preamble: str = '') -> list[str] | None:
     """Like ck.coq_eval, but safe to call from several threads (own directory per call)."""
     d = Path(tempfile.mkdtemp(prefix=f'coq_{tag}_', dir=ck.scratch))
     body = ''.join(f'Require Import {i}.\n' for i in IMPORTS) + PRE
     body += 'Set Printing Width 1000000.\nSet Printing Depth 1000000.\n'
     body += f'Definition alpha : list str := {coq_list(coq_str(a) for a in ALPHA)}.\n'
+    body += f'Definition alpha2 : list str := {coq_list(coq_str(a) for a in ALPHA2)}.\n' + preamble
     for e in exprs:
         body += f'Eval vm_compute in ({e}).\n'
     f = d / 'blk.v'
@@ -144,38 +176,55 @@ def corr_exhaustive(ck: Ck) -> None:
     """Model vs implementation over the whole segment domain: per block one Adler-32 computed by vm_compute."""
     fns = functions()
     full = ck.thorough or bool(ck.tie_broken) or bool(ESCALATE)
+    # a job = one coqc process: (prefix, separator kind, [(alphabet, segment count, indexes of the functions compared)])
+    allf = list(range(len(fns)))
     jobs = []
     for pi, prefix in enumerate(PREFIXES):
         for kind in KINDS:
-            # quick tier: all lengths <= 4 everywhere, length 5 on a fixed third of the (prefix, separator) combinations
-            top = 5 if (full or (pi + kind) % 3 == 0) else 4
-            jobs.append((prefix, kind, list(range(0, top + 1))))
+            c = pi * 4 + kind
+            # quick tier: the big blocks compare normpath, unify_path and two of the six roots (rotating with the
+            # combination, so every root meets every separator pattern); one combination chosen by the seed gets 5 segments
+            some = [0, 1, 2 + c % 6, 2 + (c + 3) % 6]
+            parts = [('alpha', n, allf if (full or n <= 3) else some) for n in range(0, 5)]
+            if full or (c - ck.seed) % 28 == 0:
+                parts.append(('alpha', 5, allf))
+            # second alphabet (backslash-carrying and non-ASCII segments): <= 3 segments, 4 when escalated
+            parts += [('alpha2', n, allf if (full or n <= 2) else some) for n in range(1, (4 if full else 3) + 1)]
+            jobs.append((prefix, kind, parts))
     if ck.thorough:     # six segments for plain and alternating separators, relative and absolute
-        jobs += [(prefix, kind, [6]) for prefix in ('', '/') for kind in (0, 2)]
+        jobs += [(prefix, kind, [('alpha', 6, allf)]) for prefix in ('', '/') for kind in (0, 2)]
 
     # the implementation runs here (sequentially, under the pinned cwd); the coqc processes run in parallel below
+    import time
+    t_impl = time.time()
     prepared = []
     with fake_cwd(CWD):
         for job in jobs:
-            prefix, kind, lens = job
+            prefix, kind, parts = job
             exprs, exp, meta = [], [], []
-            for n in lens:
-                ps = paths_of(prefix, kind, n)
-                for name, coqf, impl in fns:
+            for alpha, n, fidx in parts:
+                ps = paths_of(prefix, kind, n, alpha)
+                for p in ps:
+                    ck.hist('corr_path_shape', path_shape(p))
+                for fi in fidx:
+                    name, coqf, impl = fns[fi]
                     res = [impl(p) for p in ps]
                     exp.append(adler(res))
-                    meta.append((name, n, coqf, len(ps)))
-                    exprs.append(f'block_adler {coqf} (paths_of {coq_str(prefix)} {kind} alpha {n})')
+                    meta.append((name, n, coqf, len(ps), alpha))
+                    exprs.append(f'block_adler {coqf} (paths_of {coq_str(prefix)} {kind} {alpha} {n})')
                     ck.count('corr_exhaustive_cases', len(ps))
-                    ck.hist('corr_function', name.split('[')[0], len(ps))
-                    ck.hist('corr_segments', n, len(ps))
+                    ck.hist('corr_function', name, len(ps))
+                    ck.hist('corr_segments', f'{alpha}:{n}', len(ps))
+                    ck.hist('corr_alphabet', alpha, len(ps))
                     esc = sum(1 for x in res if x == '!')
                     if name != 'normpath':
-                        ck.hist('corr_outcome', 'rejected', esc)
-                        ck.hist('corr_outcome', 'accepted', len(res) - esc)
+                        ck.hist('corr_outcome', f'{name.split("[")[0]}:rejected', esc)
+                        ck.hist('corr_outcome', f'{name.split("[")[0]}:accepted', len(res) - esc)
                     if n >= 2:
-                        ck.seen(('blk', name, prefix, kind, n))
+                        ck.seen(('blk', name, prefix, kind, n, alpha))
             prepared.append((job, exprs, exp, meta))
+    import time
+    ck.extra['corr_exhaustive_impl_side_s'] = round(time.time() - t_impl, 1)
     with ThreadPoolExecutor(max_workers=8) as ex:
         outs = list(ex.map(lambda pr: coq_run(ck, f'p{PREFIXES.index(pr[0][0])}k{pr[0][1]}', pr[1]), prepared))
     bad_blocks = []
@@ -195,11 +244,12 @@ def corr_exhaustive(ck: Ck) -> None:
         ck.tie_broken.append('correspondence paths: model evaluation failed')
         return
     detail = []
-    for (job, (name, n, coqf, cnt)) in bad_blocks[:4]:
-        detail.append(locate_disagreement(ck, job[0], job[1], n, name, coqf))
+    for (job, (name, n, coqf, cnt, alpha)) in bad_blocks[:4]:
+        detail.append(locate_disagreement(ck, job[0], job[1], n, name, coqf, alpha))
     ck.obligation('correspondence:paths_exhaustive', not bad_blocks,
                   f'{nblocks} blocks ({ck.counts.get("corr_exhaustive_cases", 0)} cases) of normpath / unify_path / '
-                  f'RawFileSystem._resolve_path over 6 roots: {len(bad_blocks)} blocks disagree ' + '; '.join(map(str, detail)))
+                  f'RawFileSystem._resolve_path over 6 roots: {len(bad_blocks)} blocks disagree ' + '; '.join(map(str, detail))
+                  + f'; paths by alphabet {ck.distribution.get("corr_alphabet")}, by shape {ck.distribution.get("corr_path_shape")}')
     if bad_blocks:
         ck.tie_broken.append('correspondence paths (SM/PathNorm.v vs posixpath / _resolve_path / unify_path)')
         DISAGREE.setdefault('exhaustive', set()).update(m[0] for _, m in bad_blocks)
@@ -227,11 +277,11 @@ def model_predicted_escapes(ck: Ck) -> None:
     ck.extra['model_predicted_escapes'] = out[:12]
 
 
-def locate_disagreement(ck: Ck, prefix: str, kind: int, n: int, name: str, coqf: str):
+def locate_disagreement(ck: Ck, prefix: str, kind: int, n: int, name: str, coqf: str, alpha: str = 'alpha'):
     """Find the first case of a disagreeing block and show both results."""
     fn = {f[0]: f[2] for f in functions()}[name]
-    ps = paths_of(prefix, kind, n)
-    vals = coq_run(ck, 'loc', [f'case_adlers {coqf} (paths_of {coq_str(prefix)} {kind} alpha {n})'])
+    ps = paths_of(prefix, kind, n, alpha)
+    vals = coq_run(ck, 'loc', [f'case_adlers {coqf} (paths_of {coq_str(prefix)} {kind} {alpha} {n})'])
     if vals is None:
         return {'function': name, 'prefix': prefix, 'kind': kind, 'n': n, 'case': 'could not locate'}
     got = [_int(x) for x in vals[0].strip('[]').split(';') if x.strip()]
@@ -265,25 +315,32 @@ def corr_random(ck: Ck) -> None:
         if '..' in p and len(p) > 2:
             ck.seen(('rnd', p))
     ck.hist('corr_random_len', 'total', len(cases))
-    fl = coq_list(f[1] for f in fns)
-    pre = PRE + '''Fixpoint bad_res {A B} (f : A -> B) (ok : A -> B -> bool) (n : N) (l : list A) : list (N * B) := match l with [] => [] | x :: r => (if ok x (f x) then [] else [(n, f x)]) ++ bad_res f ok (n + 1)%N r end.
-Fixpoint sl_eqb (a b : list str) : bool := match a, b with [], [] => true | x :: a', y :: b' => str_eqb x y && sl_eqb a' b' | _, _ => false end.
-'''
-    from harness.common import parse_coq_nested
+    # only the paths go to Coq; the model answers with one checksum per (function, case), compared here
     bad_fns: set[str] = set()
-    for lo in range(0, len(cases), 300):
-        part = list(zip(cases[lo:lo + 300], exp[lo:lo + 300]))
-        lit = coq_list(f'({coq_str(p)}, {coq_list(coq_str(r) for r in rs)})' for p, rs in part)
-        vals = ck.coq_eval(IMPORTS, [f'bad_res (fun c : str * list str => map (fun f => f (fst c)) {fl}) '
-                                     f'(fun c m => sl_eqb m (snd c)) 0%N {lit}'], name='rnd', preamble=pre)
+    los = list(range(0, len(cases), 300))
+
+    def batch(lo):
+        lit = coq_list(coq_str(p) for p in cases[lo:lo + 300])
+        return coq_run(ck, f'rnd{lo}', [f'case_adlers {f[1]} rnd_paths' for f in fns],
+                       preamble=f'Definition rnd_paths : list str := {lit}.\n')
+    with ThreadPoolExecutor(max_workers=6) as ex:
+        outs = list(ex.map(batch, los))
+    for lo, vals in zip(los, outs):
         if vals is None:
             ck.obligation('correspondence:paths_random', False, 'model could not be evaluated')
             ck.tie_broken.append('correspondence random paths: model evaluation failed')
             return
-        for idx, model in parse_coq_nested(vals[0]):
-            mres = [''.join(chr(c) for c in m) for m in model]
-            bad.append((lo + idx, mres))
-            bad_fns |= {f[0] for f, a, b in zip(fns, mres, exp[lo + idx]) if a != b}
+        for fi, v in enumerate(vals):
+            got = [_int(x) for x in v.strip('[]').split(';') if x.strip()]
+            for k, g in enumerate(got):
+                if adler([exp[lo + k][fi]]) != g:
+                    bad_fns.add(fns[fi][0])
+                    bad.append((lo + k, fi))
+    bad.sort()
+    if bad:     # fetch the model's own answers for the first disagreeing case
+        k0 = bad[0][0]
+        mv = coq_run(ck, 'rnd_first', [f'{f[1]} {coq_str(cases[k0])}' for f in fns])
+        bad = [(k0, [''.join(chr(c) for c in parse_coq_N_list(x)) for x in mv] if mv else ['?'])] + bad[1:]
     ck.obligation('correspondence:paths_random', not bad,
                   f'{len(cases)} raw strings x {len(fns)} functions, model vs implementation: {len(bad)} disagreements'
                   + (f' in {sorted(bad_fns)}; first: {cases[bad[0][0]]!r} -> impl {exp[bad[0][0]]!r} model {bad[0][1]!r}' if bad else ''))
@@ -676,7 +733,16 @@ def search_unify(ck: Ck) -> None:
 
 
 # ------------------------------------------------------------------------------------------------ main
+def _stage(ck: Ck, name: str, t0: float) -> float:
+    import time
+    t1 = time.time()
+    ck.extra.setdefault('stage_wall_s', {})[name] = round(t1 - t0, 1)
+    return t1
+
+
 def run(ck: Ck) -> None:
+    import time
+    t = time.time()
     ck.rule = ('correspondence: EVERY path prefix + join(segments) with segments from {.., ., "", a, root, root_evil, root/x}, '
                '<= 5 segments (quick: 5 on a third of the prefix/separator combinations), 4 separator patterns (/, \\, '
                'alternating), 7 prefixes, for normpath, unify_path and _resolve_path under 6 roots; a block (function, '
@@ -722,11 +788,17 @@ def run(ck: Ck) -> None:
             ck.notes.append('RawFileSystem._resolve_path differs from the texts the model was written against: '
                             'correspondence runs with the thorough budget')
             ESCALATE.append(True)
+        t = _stage(ck, 'translate+build+obligations', t)
         corr_exhaustive(ck)
+        t = _stage(ck, 'corr_exhaustive', t)
         corr_random(ck)
+        t = _stage(ck, 'corr_random', t)
         check_casefold(ck)
+        t = _stage(ck, 'casefold', t)
     search_trees(ck)
+    t = _stage(ck, 'search_trees', t)
     search_unify(ck)
+    t = _stage(ck, 'search_unify', t)
     keys = {v['key'] for v in ck.violations}
     if any(k.startswith(('escape-', 'handle-escape-')) for k in keys):
         ck.explain('instance:guard_is_a_sound_segmentwise_form')
